@@ -745,6 +745,9 @@ Fixpoint all_chunks_ok (kind : Z) (h : list sop) (cs : list (list Z)) : bool :=
   | _, _ => false
   end.
 
+(** a further observation that is 1 whenever the call did not panic *)
+Definition with_flag (l : list Z) : list Z := match l with [_] => l | _ => l ++ [1] end.
+
 (** scanner kinds 10..12 are the scanners of kinds 0..2 created through [Default::default()]:
     by the documentation a default scanner is a new one (the polling scanner with timeout zero) *)
 Definition ctor_kind (kind : Z) : Z := if Z.leb 10 kind then kind - 10 else kind.
@@ -1151,13 +1154,16 @@ Definition check (tag : Z) (inp obs : list Z) : verdict :=
           | _, _, _ => [ZPANIC]
           end in
       verdict_of obs model spec
-  | 70, [ch; cn; v] => verdict_of obs (model_70 (nz ch) (nz cn) (nz v)) (spec_70 (nz ch) (nz cn) (nz v))
+  | 70, [ch; cn; v] =>
+      (* last integer: encoding into third-party factories gives the same bytes *)
+      verdict_of obs (with_flag (model_70 (nz ch) (nz cn) (nz v))) (with_flag (spec_70 (nz ch) (nz cn) (nz v)))
   | 71, ch :: cn :: v :: k :: prior =>
       verdict_of obs (model_71 (nz ch) (nz cn) (nz v) k (dec_cc14ops prior))
         (spec_71 (nz ch) (nz cn) (nz v))
   | 80, h => verdict_of obs (model_80 (dec_cc14ops h)) (spec_80 (dec_cc14ops h))
   | 90, [k; ch; num; v; order] =>
-      verdict_of obs (model_90 k (nz ch) (nz num) (nz v) order) (spec_90 k (nz ch) (nz num) (nz v) order)
+      verdict_of obs (with_flag (model_90 k (nz ch) (nz num) (nz v) order))
+                     (with_flag (spec_90 k (nz ch) (nz num) (nz v) order))
   | 100, k :: ch :: num :: v :: order :: kind :: prior =>
       verdict_of obs (model_100 k (nz ch) (nz num) (nz v) order kind (dec_pnops prior))
         (spec_100 k (nz ch) (nz num) (nz v))
